@@ -14,7 +14,7 @@ this analysis over-approximates, so a finding here is never reported as a violat
 import ast
 import os
 
-VALUE_CLASSES = {"Dataset", "Ranking", "ScoringScheme", "Element", "KemenyComputingFactory"}
+VALUE_CLASSES = {"Dataset", "Ranking", "ScoringScheme", "Element", "KemenyComputingFactory", "OrderedPartition", "Consensus"}
 MUTATORS = {"__init__", "remove_empty_rankings", "remove_elements", "remove_elements_rate_presence_lower_than",
             "_analyse_rankings", "name"}
 WATCH = {"dataset", "scoring_scheme", "ranking", "rankings", "input_ranking", "ranking_consensus", "r_input", "other",
@@ -26,6 +26,8 @@ DECLARED_MODIFIES = {
     "corankco/ranking.py::Ranking.__add_right": "same", "corankco/ranking.py::Ranking.__change_left": "same",
     "corankco/ranking.py::Ranking.__change_right": "same", "corankco/ranking.py::Ranking.__remove_element": "same",
     "corankco/ranking.py::Ranking.__put_element_first": "same",
+    "corankco/consensus.py::Consensus.__calculate_score": "memoises the score in the object's own feature dict (lazy "
+                                                          "evaluation is the documented behaviour of kemeny_score)",
 }
 MUTATING_METHODS = {"append", "add", "pop", "clear", "update", "remove", "sort", "fill", "extend", "insert", "discard",
                     "intersection_update", "difference_update", "symmetric_difference_update", "setdefault", "popitem",
@@ -42,7 +44,7 @@ FRESH_METHODS = {"deepcopy", "get_positions", "get_bucket_ids", "unified_ranking
                  "is_equivalent_to_on_complete_rankings_only", "can_be_int", "isdigit", "reshape", "astype", "find",
                  "rfind", "startswith", "endswith", "value", "__mul__", "is_scoring_scheme_relevant_when_incomplete_rankings",
                  "pairwise_cost_matrix", "graph_of_elements", "graph_of_elements_with_robust_arcs", "which_index_is",
-                 "get_group_index", "topk_ranking", "issuperset", "issubset", "join", "lower", "upper", "index", "count"}
+                 "topk_ranking", "issuperset", "issubset", "join", "lower", "upper", "index", "count"}
 # accessors returning scalars / immutables: their result carries no mutable input state
 SCALAR_ATTRS = {"nb_elements", "nb_rankings", "is_complete", "without_ties", "name", "type", "value", "kemeny_score",
                 "necessarily_optimal", "nb_consensus", "shape", "size", "_type", "_value", "_name", "_is_complete",
@@ -198,6 +200,8 @@ PROP_FILTER = {
     "C02": lambda key: "pairwisebasedalgorithm.py" in key or key.endswith("Dataset.get_positions")
     or key.endswith("Dataset.get_bucket_ids"),
     "C16": lambda key: ("dataset.py::Dataset." in key or "ranking.py::Ranking." in key or "element.py" in key),
+    # asking a partition (consistent_with, accessors, printing) leaves it as it was
+    "C07": lambda key: "ordered_partition.py::OrderedPartition." in key,
 }
 
 
